@@ -2,7 +2,7 @@ package main
 
 func init() {
 	extractors = append(extractors, func() {
-		g := newGen("C18", "runner/ptrace/filehandler/fileset.go")
+		g := newGen("C18", "runner/ptrace/filehandler/fileset.go", "runner/ptrace/filehandler/handle.go", "runner/ptrace/filehandler/syscallcounter.go")
 		g.p("open GoSandbox.GoLite\n\n")
 		f := parseFile("runner/ptrace/filehandler/fileset.go")
 		emitFunc(g, "isInSetSmart", findFunc(f, "FileSet", "IsInSetSmart"))
@@ -12,5 +12,14 @@ func init() {
 		emitFunc(g, "isStatableFile", findFunc(f, "FileSets", "IsStatableFile"))
 		emitFunc(g, "isSoftBanFile", findFunc(f, "FileSets", "IsSoftBanFile"))
 		emitFunc(g, "addFileSet", findFunc(f, "FileSet", "Add"))
+		h := parseFile("runner/ptrace/filehandler/handle.go")
+		emitFunc(g, "checkRead", findFunc(h, "Handler", "CheckRead"))
+		emitFunc(g, "checkWrite", findFunc(h, "Handler", "CheckWrite"))
+		emitFunc(g, "checkStat", findFunc(h, "Handler", "CheckStat"))
+		emitFunc(g, "checkSyscall", findFunc(h, "Handler", "CheckSyscall"))
+		emitFunc(g, "onDgsFileDetect", findFunc(h, "Handler", "onDgsFileDetect"))
+		c := parseFile("runner/ptrace/filehandler/syscallcounter.go")
+		emitFunc(g, "counterCheck", findFunc(c, "SyscallCounter", "Check"))
+		emitFunc(g, "counterAdd", findFunc(c, "SyscallCounter", "Add"))
 	})
 }
